@@ -375,8 +375,10 @@ func (w *vfWorld) emitPkt(ev string, from, pid int, raw []byte, extra map[string
 	chunks := []map[string]any{}
 	kinds := []any{}
 	wf := []any{}
+	pwf := []any{} // packet-level framing problems only (what spec/Framing.tla's Walk rejects)
 	for _, s := range d.WF {
 		wf = append(wf, s)
+		pwf = append(pwf, s)
 	}
 	for _, c := range d.Chunks {
 		m, pr := vfChunkJSONb(c, txb, rxb, w.identFrag(from), func(sid int) vfSeqBase { return w.seqBase[[2]int{from, sid}] })
@@ -396,7 +398,7 @@ func (w *vfWorld) emitPkt(ev string, from, pid int, raw []byte, extra map[string
 		vt = "own"
 	}
 	h := map[string]any{"ev": ev, "ep": from, "pid": pid, "t": w.now(), "len": len(raw), "ck": d.CkClass,
-		"vtag": vt, "ports": d.Sport == 5000 && d.Dport == 5000, "wf": wf, "kinds": kinds, "n": len(chunks)}
+		"vtag": vt, "ports": d.Sport == 5000 && d.Dport == 5000, "wf": wf, "pwf": pwf, "kinds": kinds, "n": len(chunks)}
 	for k, v := range extra {
 		h[k] = v
 	}
